@@ -138,6 +138,13 @@ func powExponent(r *rng.R) dec.D {
 
 // modfOperand covers Modf's branches: |x| < 0.1, |x| < 1, integers, exponent > 0.
 func modfOperand(r *rng.R, c dec.Ctx) dec.D {
+	if r.Chance(1, 6) {
+		// long coefficients with the decimal point inside the digit string and
+		// more than 128 fraction digits (powers of ten beyond the lookup table)
+		n := int64(130 + r.Intn(400))
+		cf, _ := new(big.Int).SetString(gen.Digits(r, n), 10)
+		return dec.D{Form: dec.Finite, Neg: r.Bool(), C: cf, E: -r.Range(100, n+5)}
+	}
 	x := integralOperand(r, c)
 	if r.Chance(1, 6) {
 		x.E = int64(1 + r.Intn(4))
